@@ -1472,7 +1472,7 @@ def initial_sizes():
     return sorted(ns), th
 
 
-def run_any(job):
+def run_any(job, attempt=0):
     kind = job[0]
     try:
         if kind == "table":
@@ -1485,9 +1485,14 @@ def run_any(job):
             return kind, hash_cyclic_job(job[1])
         if kind == "depth":
             return kind, depth_job(job[1])
-    except Exception as ex:               # harness problem inside a worker: report, do not hide
+    except Exception as ex:
+        # typically: /repo changed under us and the variant is being rebuilt by another process, or the rebuild
+        # failed half-way.  Wait, try once more; a second failure is reported as a harness error by main().
         import traceback
-        return "error", dict(job=repr(job)[:300], tb=traceback.format_exc())
+        if attempt == 0:
+            time.sleep(20)
+            return run_any(job, 1)
+        return "error", dict(job=job, tb=traceback.format_exc())
     raise ValueError(kind)
 
 
@@ -1590,68 +1595,83 @@ def main(tier, replay=None):
     depth_out = []
     hashcyc = []
     harness_errors = []
+    st = dict(table_runs=0, table_exec=0, cyc=None)
+
+    def handle(kind, r):
+        if kind == "error":
+            harness_errors.append(r)
+            log("worker error:", r["tb"][-400:])
+        elif kind == "table":
+            key = (r["api"], r["eq"], r["n0"])
+            tstats[key] = r["stats"]
+            st["table_runs"] += r["runs"]
+            st["table_exec"] += r["executed"]
+            ck = "srfi-%s %s" % (r["api"], "n0<=31" if r["n0"] <= FULL_DUMP_N0 else "n0>31")
+            cpu_by[ck] = cpu_by.get(ck, 0.0) + r["cpu"]
+            runs_by[ck] = runs_by.get(ck, 0) + r["executed"]
+            if r["retried"]:
+                retried_jobs.append((r["api"], r["eq"], r["n0"], bool(r["crash"])))
+            chk.evaluations += r["tokens"]
+            for k, c in r["outcomes"].items():
+                chk.outcomes["table:" + k.split(":")[0] + (":E" if k.endswith(":E") else "")] += c
+            if r["collide"]:
+                collide_mods.add(r["collide"].split(" ")[0])
+            if r["sample"] and r["chunk"] == 0 and r["n0"] in (2, 16, 491):
+                chk.sample(r["sample"], cap=9)
+            for (i, pl, ml, lab, got, want, rot, full) in r["mism"]:
+                cause = attribute(r["api"], r["eq"], r["n0"], pl, ml, lab, got, want)
+                gk = (cause, r["api"]) if cause != "unexplained" else (cause, r["api"], r["eq"], lab[0])
+                g = agg.add(gk, None, None, None, weight=len(pl) * 1000 + r["n0"])
+                if g["desc"] is None or g["weight"] == len(pl) * 1000 + r["n0"] and g["desc"].get("_w") != g["weight"]:
+                    g["desc"] = dict(op="table:" + cause, api="srfi-" + r["api"], equivalence=r["eq"], n0=r["n0"],
+                                     history=[opstr(x) for x in pl + ([ml] if ml else [])], at=opstr(lab),
+                                     got=got, want=want, _w=g["weight"], _rp=(r["api"], r["eq"], r["n0"], pl, ml, rot, full))
+                g["extra"].setdefault("at", set()).add(lab[0])
+                g["extra"].setdefault("equivalences", set()).add(r["eq"])
+                g["extra"].setdefault("n0", set()).add(r["n0"])
+            if r["crash"]:
+                crashes.append(r)
+        elif kind == "coh":
+            rows.update(r["rows"])
+            hashes.update(r["hashes"])
+            for e in r["route_errors"]:
+                i = int(e.split()[1])
+                agg.add(("route-error", insts[i].kind, insts[i].route),
+                        dict(op="route-error", kind=insts[i].kind, route=insts[i].route, expr=insts[i].expr),
+                        "building %s through route %s raised: %s" % (datum_or_rec(insts[i].val), insts[i].route, e),
+                        COH_PRELUDE + "(write %s)\n" % insts[i].expr)
+            if r["rc"] != 0 or r["timed_out"] or r["other"]:
+                agg.add(("coh-crash", r["lo"]), dict(op="coherence-batch-crash", rc=r["rc"], lo=r["lo"], hi=r["hi"], timed_out=r["timed_out"]),
+                        "coherence batch rows %d..%d ended abnormally rc=%s: %s %s" % (r["lo"], r["hi"], r["rc"], r["other"][:3], r["tail"][-300:]), None)
+        elif kind == "cyclic":
+            st["cyc"] = r
+        elif kind == "depth":
+            depth_out.append(r)
+        elif kind == "hashcyc":
+            hashcyc.append(r)
+
     with Pool(common.NCPU) as pool:
         worker_pids = [w.pid for w in pool._pool]
         for kind, r in pool.imap_unordered(run_any, work):
             done += 1
-            if kind == "error":
-                harness_errors.append(r)
-                log("worker error:", r["tb"][-400:])
-            elif kind == "table":
-                key = (r["api"], r["eq"], r["n0"])
-                tstats[key] = r["stats"]
-                table_runs += r["runs"]
-                table_exec += r["executed"]
-                ck = "srfi-%s %s" % (r["api"], "n0<=31" if r["n0"] <= FULL_DUMP_N0 else "n0>31")
-                cpu_by[ck] = cpu_by.get(ck, 0.0) + r["cpu"]
-                runs_by[ck] = runs_by.get(ck, 0) + r["executed"]
-                if r["retried"]:
-                    retried_jobs.append((r["api"], r["eq"], r["n0"], bool(r["crash"])))
-                chk.evaluations += r["tokens"]
-                for k, c in r["outcomes"].items():
-                    chk.outcomes["table:" + k.split(":")[0] + (":E" if k.endswith(":E") else "")] += c
-                if r["collide"]:
-                    collide_mods.add(r["collide"].split(" ")[0])
-                if r["sample"] and r["chunk"] == 0 and r["n0"] in (2, 16, 491):
-                    chk.sample(r["sample"], cap=9)
-                for (i, pl, ml, lab, got, want, rot, full) in r["mism"]:
-                    cause = attribute(r["api"], r["eq"], r["n0"], pl, ml, lab, got, want)
-                    gk = (cause, r["api"]) if cause != "unexplained" else (cause, r["api"], r["eq"], lab[0])
-                    g = agg.add(gk, None, None, None, weight=len(pl) * 1000 + r["n0"])
-                    if g["desc"] is None or g["weight"] == len(pl) * 1000 + r["n0"] and g["desc"].get("_w") != g["weight"]:
-                        g["desc"] = dict(op="table:" + cause, api="srfi-" + r["api"], equivalence=r["eq"], n0=r["n0"],
-                                         history=[opstr(x) for x in pl + ([ml] if ml else [])], at=opstr(lab),
-                                         got=got, want=want, _w=g["weight"], _rp=(r["api"], r["eq"], r["n0"], pl, ml, rot, full))
-                    g["extra"].setdefault("at", set()).add(lab[0])
-                    g["extra"].setdefault("equivalences", set()).add(r["eq"])
-                    g["extra"].setdefault("n0", set()).add(r["n0"])
-                if r["crash"]:
-                    crashes.append(r)
-            elif kind == "coh":
-                rows.update(r["rows"])
-                hashes.update(r["hashes"])
-                for e in r["route_errors"]:
-                    i = int(e.split()[1])
-                    agg.add(("route-error", insts[i].kind, insts[i].route),
-                            dict(op="route-error", kind=insts[i].kind, route=insts[i].route, expr=insts[i].expr),
-                            "building %s through route %s raised: %s" % (datum_or_rec(insts[i].val), insts[i].route, e),
-                            COH_PRELUDE + "(write %s)\n" % insts[i].expr)
-                if r["rc"] != 0 or r["timed_out"] or r["other"]:
-                    agg.add(("coh-crash", r["lo"]), dict(op="coherence-batch-crash", rc=r["rc"], lo=r["lo"], hi=r["hi"], timed_out=r["timed_out"]),
-                            "coherence batch rows %d..%d ended abnormally rc=%s: %s %s" % (r["lo"], r["hi"], r["rc"], r["other"][:3], r["tail"][-300:]), None)
-            elif kind == "cyclic":
-                cyc = r
-            elif kind == "depth":
-                depth_out.append(r)
-            elif kind == "hashcyc":
-                hashcyc.append(r)
+            handle(kind, r)
             if chk.out_of_time():
                 pool.terminate()
                 reap_workers(worker_pids)
                 log("deadline reached after %d/%d jobs" % (done, len(work)))
                 break
-    for e in harness_errors:
-        raise common.HarnessError(e["tb"])
+    if harness_errors and not chk.out_of_time():
+        # second chance, serially, for jobs whose worker failed twice (e.g. while a variant was being rebuilt)
+        todo = list(harness_errors)
+        del harness_errors[:]
+        for e in todo:
+            kind, r = run_any(e["job"])
+            if kind == "error":
+                raise common.HarnessError(r["tb"])
+            handle(kind, r)
+    elif harness_errors:
+        raise common.HarnessError(harness_errors[0]["tb"])
+    table_runs, table_exec, cyc = st["table_runs"], st["table_exec"], st["cyc"]
 
     # ---------------- (a) analysis
     def agg_a(desc, what, replay):
